@@ -396,6 +396,108 @@ def oracle_u0(ctx, cuqi, rng, want):
                          "with rand()==0.0 the in-tree test `rand() <= n2/max(1,n1+n2)` replaces an in-slice candidate by a leaf outside the slice")
 
 
+def chain_stream(ctx, cuqi, rng, n):
+    """two consecutive transitions on ONE sampler object: the second starts from the state, cached log-density and cached
+    gradient the first left behind; the model is run on transition 1, then on transition 2 from the model's exact next state."""
+    cases = []
+    for i in range(n):
+        c = gen_tight(rng, False) if i % 3 == 0 else gen_case(rng, False)
+        c["int_x0"] = False
+        c["md"] = min(c["md"], 4)
+        if i % 2 == 1 and c["eps"] == 1.0:
+            c["eps"] = 0.5        # legacy: adapt_step_size=1.0 is read as True (adaptation on), not as a step size
+        cases.append(c)
+    o1 = ctx.lean.drive([line_of(c, 1) for c in cases])
+    stage2 = []
+    for i, (c, mo) in enumerate(zip(cases, o1)):
+        if mo in ("bad-op", "err-nonfinite-start"):
+            continue
+        f = [t.strip() for t in mo.split("|")]
+        if float(Fraction(f[7])) < 1e-7:
+            continue
+        r2 = [rng.randint(-12, 12) / 8 for _ in range(c["d"])]; e2 = rng.randint(1, 40) / 16
+        us2 = [rng.randint(1, 1023) / 1024 for _ in range(len(c["us"]))]
+        line2 = "nuts 1 %d %s %s %s %s %s %s %s %s" % (
+            c["md"], q(c["eps"]), qm(c["P"]), qv(c["b"]),
+            "none" if c["wall"] is None else q(c["wall"]) + ":" + c.get("wall_kind", "nan"), f[1], qv(r2), q(e2), qv(us2))
+        stage2.append((c, f, r2, e2, us2, line2, "exp" if i % 2 == 0 else "legacy"))
+    o2 = ctx.lean.drive([t[5] for t in stage2])
+    for (c, f1, r2, e2, us2, _, iface), mo2 in zip(stage2, o2):
+        if mo2 in ("bad-op", "err-nonfinite-start"):
+            continue
+        f2 = [t.strip() for t in mo2.split("|")]
+        if float(Fraction(f2[7])) < 1e-7:
+            continue
+        cons1, cons2 = int(f1[3]), int(f2[3])
+        desc = {k: c[k] for k in ("d", "P", "b", "eps", "md", "x", "wall", "wall_kind")}
+        desc.update({"iface": iface, "r": [c["r"], r2], "e": [c["e"], e2], "us_head": [c["us"][:6], us2[:6]]})
+        key = f"NUTS:{iface}:chain2"
+        target, calls = make_target(cuqi, c["P"], c["b"], c["wall"], c.get("wall_kind", "nan"))
+        x0 = np.array(c["x"], dtype=float); x0_snap = x0.copy()
+        sc = Script([c["r"], r2], [c["e"], e2], c["us"][:cons1] + us2)
+        raised = None
+        with quiet():
+            try:
+                if iface == "exp":
+                    from cuqi.experimental.mcmc import NUTS
+                    s = NUTS(target, initial_point=x0, max_depth=c["md"], step_size=c["eps"])
+                    s._ensure_initialized()
+                    with scripted(sc):
+                        s.sample(1); mid = np.array(s.current_point, dtype=float).ravel().copy(); s.sample(1)
+                    xe = np.asarray(s.current_point, dtype=float).ravel()
+                    cache = (float(s.current_target_logd), np.asarray(s.current_target_grad, dtype=float).ravel())
+                    chain = np.asarray(s.get_samples().samples, dtype=float)
+                else:
+                    from cuqi.sampler import NUTS
+                    s = NUTS(target, x0=x0, max_depth=c["md"], adapt_step_size=c["eps"])
+                    with scripted(sc):
+                        res = s.sample(3, 0)
+                    chain = np.asarray(res.samples, dtype=float)
+                    mid = chain[:, 1].copy(); xe = chain[:, 2].copy(); cache = None
+            except Exception as ex:
+                raised = repr(ex)[:200]
+        ctx.case(f"chain2-{iface}", desc)
+        if raised:
+            ctx.disagree(key + ":crash", desc, mo2[:60], raised, "implementation raised during two consecutive transitions"); continue
+        m1 = [float(v) for v in pv(f1[1])]; m2 = [float(v) for v in pv(f2[1])]
+        bad = False
+        if not np.array_equal(x0, x0_snap):
+            ctx.fail(key + ":modifies-start", desc, x0_snap.tolist(), x0.tolist(), "the sampler modified the caller's start vector"); bad = True
+        if cache is not None:
+            l_true = float(target.logpdf(xe)); g_true = np.asarray(target.gradient(xe), float).ravel()
+            if not (close(cache[0], l_true, 1e-9) and vclose(cache[1], g_true, 1e-9)):
+                ctx.fail(key, desc, {"logd": l_true, "grad": g_true.tolist()}, {"logd": cache[0], "grad": cache[1].tolist()},
+                         "after two transitions the cached log-density/gradient do not belong to the current point"); bad = True
+        if chain.shape[1] >= 2 and not (vclose(chain[:, -1], xe, 0) and vclose(chain[:, -2], mid, 0)):
+            ctx.fail(key, desc, {"stored chain": [mid.tolist(), xe.tolist()]}, chain[:, -2:].T.tolist(), "the stored chain is not the sequence of states visited"); bad = True
+        diff = None
+        if not vclose(mid, m1, 1e-7): diff = ("state after transition 1", m1, mid.tolist())
+        elif not vclose(xe, m2, 1e-7): diff = ("state after transition 2", m2, xe.tolist())
+        elif sc.n_rand != cons1 + cons2: diff = ("uniform draws consumed", cons1 + cons2, sc.n_rand)
+        if diff:
+            ctx.disagree(key, desc, {diff[0]: diff[1]}, {diff[0]: diff[2]}, diff[0] + " differs")
+            if not bad and diff[0] == "state after transition 2":
+                # implementation-only: replay transition 2 on a FRESH sampler started at the implementation's own mid state with the
+                # same draws; a transition is a function of (state, draws) only, so the two must agree
+                sc2 = Script([r2], [e2], us2)
+                with quiet():
+                    try:
+                        if iface == "exp":
+                            from cuqi.experimental.mcmc import NUTS
+                            t2 = NUTS(target, initial_point=mid.copy(), max_depth=c["md"], step_size=c["eps"]); t2._ensure_initialized()
+                            with scripted(sc2): t2.sample(1)
+                            xf = np.asarray(t2.current_point, float).ravel()
+                        else:
+                            from cuqi.sampler import NUTS
+                            t2 = NUTS(target, x0=mid.copy(), max_depth=c["md"], adapt_step_size=c["eps"])
+                            with scripted(sc2): xf = np.asarray(t2.sample(2, 0).samples[:, 1], float).ravel()
+                        if not vclose(xf, xe, 1e-9):
+                            ctx.fail(key, desc, {"fresh sampler from the same state and draws": xf.tolist()}, xe.tolist(),
+                                     "the second transition depends on more than the current state and the draws (stale cached log-density / gradient / tree state)")
+                    except Exception:
+                        pass
+
+
 def run(ctx):
     cuqi = import_cuqi()
     thorough = ctx.tier == "thorough"
@@ -503,6 +605,7 @@ def run(ctx):
                         fl["key"] = key   # tie the exhibited failing input to the broken correspondence
     ctx.extra_cov["c08_hist"] = hist
     ctx.extra_cov["skipped_small_margin"] = skipped
+    chain_stream(ctx, cuqi, rng, 90 if not thorough else 900)
     oracle_uniform(ctx, cuqi, rng, 6 if not thorough else 40)
     oracle_u0(ctx, cuqi, rng, 3 if not thorough else 20)
     oracle_divergence(ctx, cuqi, rng, 3 if not thorough else 20)
